@@ -255,6 +255,10 @@ func (x *VC) ev(e *SExpr, env *SEnv) *Val {
 					x.specFail(e, "quantified variable of composite type %s", qv.Type)
 				}
 				v = &Val{K: KScalar, T: name, S: s, GT: t}
+				// a variable of a machine integer type ranges over that type's values
+				if rg := x.typeRange(name, t); rg != "true" {
+					ranges = append(ranges, rg)
+				}
 			}
 			ne.bound[qv.Name] = v
 			decls = append(decls, "("+name+" "+v.S+")")
